@@ -2,7 +2,7 @@
    PARTIAL.  Proved over all interleavings: the three protocol-level facts the concurrent design rests on, and the
    lock discipline (exclusion, no deadlock, bounded schedules).  The absence of data races and of panics in the Go
    code is explored by the race-detector harness (exploration, not proof); the structural invariant at quiescence is the sequential one of C01 and is checked on the quiescent dumps. *)
-From Verif Require Import Base.Prelude Proto.Conc Proto.ConcProofs Proto.Locks Proto.LocksProofs Generated.Facts.
+From Verif Require Import Base.Prelude Proto.Conc Proto.ConcProofs Proto.Locks Proto.LocksProofs Proto.CasProofs Generated.Facts.
 
 Definition fb13 (f : fact bool) : bool := match f with Known b => b | Unrecognised _ => false end.
 Definition reader_skips_dead_entry_now : bool := fb13 search_skips_dead_entry && fb13 search_skips_deleted.
@@ -42,6 +42,20 @@ Theorem C13_promotion_final : forall lvl vs e0 sched,
   Forall (fun t => snd t = TDone) (p_threads s) -> Forall (fun t => lvl (fst t) <= lvl (p_entry s)) (p_threads s).
 Proof. exact promotion_final. Qed.
 
+
+
+(* (C, termination) the compare-and-swap loop is finite: with n writers promoting their vertices, whatever the levels
+   and the schedule, there are at most 2·n² steps of writers that have not finished (a writer reloads only because
+   another writer's swap succeeded since its load, and each writer swaps or gives up once) *)
+Theorem C13_promotion_terminates : forall lvl vs e0 sched,
+  effective lvl {| p_entry := e0; p_threads := map (fun v => (v, TIdle)) vs |} sched -> length sched <= 2 * length vs * length vs.
+Proof. exact promotion_terminates. Qed.
+Example C13_promotion_runs :
+  let lvl := fun v => match v with 1 => 2 | 2 => 1 | _ => 0 end in
+  let s0 := {| p_entry := 0; p_threads := [(1, TIdle); (2, TIdle)] |} in
+  effective lvl s0 [0; 1; 1; 0; 0; 0] /\ Forall (fun t => snd t = TDone) (p_threads (prun lvl true s0 [0; 1; 1; 0; 0; 0])) /\
+  p_entry (prun lvl true s0 [0; 1; 1; 0; 0; 0]) = 1.
+Proof. split; [cbn; repeat (split; [eexists; split; reflexivity|]); exact I|]. split; [repeat constructor|reflexivity]. Qed.
 
 (* (D) the locks: shard locks around the id maps, one read/write lock per vertex and level.  With every critical section
    finite and acquiring no further lock (the fact above), for any number of goroutines, any sequence of critical
@@ -83,3 +97,4 @@ Print Assumptions C13_count_matches.
 Print Assumptions C13_search_never_returns_removed.
 Print Assumptions C13_promotion_monotone.
 Print Assumptions C13_locks_safe_and_live.
+Print Assumptions C13_promotion_terminates.
